@@ -30,7 +30,9 @@ async fn run() -> Result<(), String> {
     let mut router = lsp::server::Server::new_router(ClientSocket::new_closed());
     // (pauses: a notification that arrives while the diagnostics task of the previous one still holds its snapshot can block
     //  the main loop for good - that is property C08, not the subject here)
-    let _ = router.notify(open(&uri(&inc), "class New;\n"));           // the editor's buffer of inc.td differs from the disk
+    let _ = router.notify(open(&uri(&inc), "class First;\n"));         // the editor's buffer of inc.td differs from the disk ...
+    tokio::time::sleep(Duration::from_millis(700)).await;
+    let _ = router.notify(change(&uri(&inc), "class New;\n", 2));       // ... and is edited before the root is opened
     tokio::time::sleep(Duration::from_millis(700)).await;
     let _ = router.notify(open(&uri(&root), root_text));                // root.td includes inc.td
     tokio::time::sleep(Duration::from_millis(700)).await;
